@@ -90,6 +90,9 @@ var (
 
 func installHook() {
 	crdt.SetVerifHook(func(ev string, kv ...interface{}) {
+		if ev != "batched" && ev != "batcherr" && ev != "commit" {
+			return // the drivers log their own call/return lines
+		}
 		var pid peer.ID
 		out := make([]interface{}, 0, len(kv))
 		for i := 0; i+1 < len(kv); i += 2 {
